@@ -547,7 +547,7 @@ def plan(prop, tier):
             if not q:
                 for op in OPS:
                     add(kind, prefix=1, nops=2, first=[op], weight=20)
-            else:
+            elif kind in ('file', 'dir', 'sqlfile'):
                 for op in ('set', 'del', 'pop', 'popitem', 'setdefault', 'update', 'clear', 'set_bad'):
                     add(kind, prefix=1, nops=2, first=[op], weight=20)
         for kind in ('dir', 'sql', 'file'):
